@@ -36,6 +36,9 @@
 #include "quill/core/ThreadContextManager.h"
 #include "quill/core/TimeUtilities.h"
 #include "quill/core/UnboundedSPSCQueue.h"
+#if defined(QUILL_VERIF)
+  #include "quill/core/VerifHooks.h"
+#endif
 #include "quill/sinks/Sink.h"
 
 #include "quill/bundled/fmt/base.h"
@@ -276,6 +279,10 @@ private:
     // load all contexts locally
     _update_active_thread_contexts_cache();
 
+#if defined(QUILL_VERIF)
+    QUILL_VERIF_YIELD(1);
+#endif
+
     // Read all frontend queues and cache the log statements and the metadata as TransitEvents
     size_t const cached_transit_events_count = _populate_transit_events_from_frontend_queues();
 
@@ -284,6 +291,9 @@ private:
       // there are cached events to process
       if (cached_transit_events_count < _options.transit_events_soft_limit)
       {
+#if defined(QUILL_VERIF)
+        QUILL_VERIF_YIELD(4);
+#endif
         // process a single transit event, then give priority to reading the frontend queues again
         _process_lowest_timestamp_transit_event();
       }
@@ -293,6 +303,9 @@ private:
         while (!has_pending_events_for_caching_when_transit_event_buffer_empty() &&
                _process_lowest_timestamp_transit_event())
         {
+#if defined(QUILL_VERIF)
+          QUILL_VERIF_YIELD(4);
+#endif
           // We need to be cautious because there are log messages in the lock-free queues
           // that have not yet been cached in the transit event buffer. Logging only the cached
           // messages can result in out-of-order log entries, as messages with larger timestamps
@@ -317,7 +330,13 @@ private:
       bool const queues_and_events_empty = _check_frontend_queues_and_cached_transit_events_empty();
       if (queues_and_events_empty)
       {
+#if defined(QUILL_VERIF)
+        QUILL_VERIF_YIELD(5);
+#endif
         _cleanup_invalidated_thread_contexts();
+#if defined(QUILL_VERIF)
+        QUILL_VERIF_YIELD(5);
+#endif
         _cleanup_invalidated_loggers();
         _try_shrink_empty_transit_event_buffers();
 
@@ -405,12 +424,18 @@ private:
         break;
       }
 
+#if defined(QUILL_VERIF)
+      QUILL_VERIF_YIELD(1);
+#endif
       uint64_t const cached_transit_events_count = _populate_transit_events_from_frontend_queues();
       if (cached_transit_events_count > 0)
       {
         while (!has_pending_events_for_caching_when_transit_event_buffer_empty() &&
                _process_lowest_timestamp_transit_event())
         {
+#if defined(QUILL_VERIF)
+          QUILL_VERIF_YIELD(4);
+#endif
           // We need to be cautious because there are log messages in the lock-free queues
           // that have not yet been cached in the transit event buffer. Logging only the cached
           // messages can result in out-of-order log entries, as messages with larger timestamps
@@ -438,6 +463,10 @@ private:
     for (ThreadContext* thread_context : _active_thread_contexts_cache)
     {
       assert(thread_context->has_unbounded_queue_type() || thread_context->has_bounded_queue_type());
+
+#if defined(QUILL_VERIF)
+      QUILL_VERIF_YIELD(2);
+#endif
 
       if (thread_context->has_unbounded_queue_type())
       {
@@ -502,6 +531,9 @@ private:
       auto const bytes_read = static_cast<size_t>(read_pos - read_begin);
       frontend_queue.finish_read(bytes_read);
       total_bytes_read += bytes_read;
+#if defined(QUILL_VERIF)
+      QUILL_VERIF_YIELD(3);
+#endif
       // Reads a maximum of one full frontend queue or the transit events' hard limit to prevent
       // getting stuck on the same producer.
     } while ((total_bytes_read < queue_capacity) &&
